@@ -7,8 +7,8 @@ package netpoll
 // NewReader / NewWriter / NewIOReader / NewIOWriter; op lines + reply lines for the Lean adapter model.
 
 import (
-	"bytes"
 	"bufio"
+	"bytes"
 	"errors"
 	"flag"
 	"fmt"
@@ -131,6 +131,26 @@ type vAdapters struct {
 	lb   map[int]*LinkBuffer
 	ior  map[int]io.Reader
 	iow  map[int]io.Writer
+	// the caller's buffer for io.Writer.Write calls: one scratch slice refilled for every Write, as io.Copy does
+	scratch []byte
+}
+
+// callerWrite is a caller of an io.Writer: it fills its scratch buffer with the n bytes to write, calls Write, and is
+// then free to reuse the buffer ("Write must not modify the slice data ... Implementations must not retain p"):
+// it overwrites it at once.  An adapter that kept a reference to p now holds the scribbled bytes.
+func (a *vAdapters) callerWrite(w io.Writer, n, seed int) (int, error) {
+	if cap(a.scratch) < n {
+		a.scratch = make([]byte, n, n+n/4)
+	}
+	p := a.scratch[:n]
+	for i := range p {
+		p[i] = vGenByte(seed, i)
+	}
+	k, err := w.Write(p)
+	for i := range p {
+		p[i] = 0x5A
+	}
+	return k, err
 }
 
 func (a *vAdapters) exec(toks []string) (reply string) {
@@ -296,7 +316,7 @@ func (a *vAdapters) exec(toks []string) (reply string) {
 		b := a.lb[id]
 		switch op {
 		case "write":
-			n, err := a.iow[id].Write(vGenBytes(atoi(toks[4]), atoi(toks[3]), 0))
+			n, err := a.callerWrite(a.iow[id], atoi(toks[3]), atoi(toks[4]))
 			res = fmt.Sprintf("ok n:%d", n)
 			if err != nil {
 				res = "fail buf"
@@ -312,6 +332,28 @@ func (a *vAdapters) exec(toks []string) (reply string) {
 			return "bad-op"
 		}
 		return fmt.Sprintf("%s ## L=%d M=%d", res, b.Len(), b.MallocLen())
+	case "iowz":
+		// NewIOWriter over NewWriter over a scripted (short-writing, failing) sink: what a Write could not push
+		// through stays in the zcWriter's buffer and goes out with a later Write / Flush
+		if op == "new" {
+			s := &vSink{script: vParseScript(toks[3])}
+			a.sink[id] = s
+			a.zw[id] = NewWriter(s).(*zcWriter)
+			a.iow[id] = NewIOWriter(a.zw[id])
+			return "ok"
+		}
+		w, s := a.zw[id], a.sink[id]
+		switch op {
+		case "write":
+			n, err := a.callerWrite(a.iow[id], atoi(toks[3]), atoi(toks[4]))
+			res = fmt.Sprintf("ok n:%d", n)
+			set(err)
+		case "flush":
+			set(w.Flush())
+		default:
+			return "bad-op"
+		}
+		return fmt.Sprintf("%s ## L=%d M=%d sunk=%d:%d left=%d", res, w.buf.Len(), w.buf.MallocLen(), len(s.got), vFnv(s.got), len(s.script))
 	}
 	return "bad-op"
 }
@@ -340,6 +382,22 @@ func vGenScript(r *rand.Rand, src bool) string {
 	return strings.Join(parts, ",")
 }
 
+// vGenScriptLong: a source that keeps delivering (mostly full 4 KiB reads, no error before the end): a long message
+// that spans many blocks of the reader's buffer, read piecewise and released only at its end.
+func vGenScriptLong(r *rand.Rand) string {
+	n := 6 + r.Intn(11)
+	var parts []string
+	for i := 0; i < n; i++ {
+		k := []int{4096, 4096, 4096, 5000, 4095, 2048, 1 + r.Intn(4096)}[r.Intn(7)]
+		e := 'n'
+		if i == n-1 && r.Intn(3) == 0 {
+			e = []rune{'e', 'x'}[r.Intn(2)]
+		}
+		parts = append(parts, fmt.Sprintf("%d:%c", k, e))
+	}
+	return strings.Join(parts, ",")
+}
+
 // VerifAdapterMain: adapter -seed S -seqs N -ops K -ops-out F -impl-out F [-replay F]
 func VerifAdapterMain(args []string) int {
 	fs := flag.NewFlagSet("adapter", flag.ContinueOnError)
@@ -352,7 +410,7 @@ func VerifAdapterMain(args []string) int {
 	if err := fs.Parse(args); err != nil {
 		return 2
 	}
-	mcache.VerifDoPoison = false
+	mcache.VerifDoPoison = true // a premature free must show in every held result (HELD-CHANGED) and in what is read later
 	io_, err := os.Create(*implOut)
 	if err != nil {
 		fmt.Fprintln(os.Stderr, err)
@@ -422,10 +480,16 @@ func VerifAdapterMain(args []string) int {
 		a := fresh()
 		fmt.Fprintf(ow, "seq %d %d\n", s, c)
 		fmt.Fprintln(iw, "seq")
-		kind := []string{"zr", "zr", "zw", "zw", "ior", "iow"}[r.Intn(6)]
+		kind := []string{"zr", "zr", "zr", "zw", "zw", "ior", "iow", "iowz"}[r.Intn(8)]
 		first := fmt.Sprintf("%s 0 new %s", kind, vGenScript(r, kind == "zr"))
 		if kind == "ior" || kind == "iow" {
 			first = fmt.Sprintf("%s 0 new", kind)
+		}
+		// one reader sequence in four: long stream, piecewise zero-copy reads, Release rare (results are held
+		// across many refills of the reader's buffer)
+		long := kind == "zr" && r.Intn(4) == 0
+		if long {
+			first = fmt.Sprintf("zr 0 new %s", vGenScriptLong(r))
 		}
 		emit := func(line string) bool {
 			fmt.Fprintln(ow, line)
@@ -460,6 +524,12 @@ func VerifAdapterMain(args []string) int {
 					line = []string{"zr 0 rel", "zr 0 len", fmt.Sprintf("zr 0 until %d", r.Intn(251))}[r.Intn(3)]
 				default:
 					line = "zr 0 rel"
+					if long && r.Intn(4) != 0 {
+						line = fmt.Sprintf("zr 0 next %d", []int{1, 100, 1000, 4095, 4096, 4097, 6000, r.Intn(9000)}[r.Intn(8)])
+					}
+				}
+				if long && line == "zr 0 rel" && r.Intn(2) == 0 {
+					line = "zr 0 len"
 				}
 			case "zw":
 				switch r.Intn(9) {
@@ -511,6 +581,16 @@ func VerifAdapterMain(args []string) int {
 				} else {
 					l := a.lb[0].Len()
 					line = fmt.Sprintf("iow 0 drain %d", []int{0, 1, l / 2, l, l}[r.Intn(5)])
+				}
+			case "iowz":
+				if r.Intn(4) != 0 {
+					n := sz()
+					if n < 0 {
+						n = 0
+					}
+					line = fmt.Sprintf("iowz 0 write %d %d", n, r.Intn(1000))
+				} else {
+					line = "iowz 0 flush"
 				}
 			}
 			if !emit(line) {
